@@ -60,6 +60,17 @@ func loadReplay(t *testing.T, v interface{}) bool {
 			t.Fatalf("replay: %v", err)
 		}
 	}
+	// a schedule violation is replayed by repeating the comparison with the pinned values
+	var sc scheduleCase
+	if json.Unmarshal(b, &sc) == nil && sc.ScheduleCheck != "" {
+		st := NewStats(sc.ScheduleCheck)
+		CheckPropSchedule(st, sc.ScheduleCheck)
+		if len(st.Violations) > 0 {
+			carriedViolations = append(carriedViolations, st.Violations...)
+			t.Fatalf("%s", st.Violations[0].Msg)
+		}
+		t.Skip("schedule replay: defaults equal the pinned values")
+	}
 	if err := json.Unmarshal(b, v); err != nil {
 		t.Fatalf("replay: %v", err)
 	}
